@@ -23,10 +23,30 @@ type specCtx struct {
 	pkg      *types.Package
 	frame    *Frame // for local variable lookup in loop invariants (may be nil)
 	loopCtx  *LoopCtx
+	ghost    map[string]*Term // ghost state used for reads (nil: the current state's)
+	oldGhost map[string]*Term // ghost state denoted by old(...) (nil: the entry state, i.e. the initial constants)
+	inOld    bool
 	depth    int
 	// case split of the outermost universally quantified index variable against the index just processed
 	splitMode int // 0 none, 1: variable == splitTerm, 2: variable != splitTerm
 	splitTerm *Term
+}
+
+// ghostArr returns the ghost array of the given name in the state the context reads (current, or old inside old(...)).
+func (c *specCtx) ghostArr(name string, sort Sort) *Term {
+	var m map[string]*Term
+	switch {
+	case c.inOld:
+		m = c.oldGhost
+	case c.ghost != nil:
+		m = c.ghost
+	default:
+		m = c.st.Ghost
+	}
+	if t, ok := m[name]; ok {
+		return t
+	}
+	return c.e.tb.Const("G0!"+name, sort)
 }
 
 type specBind struct {
@@ -175,6 +195,8 @@ func (c *specCtx) eval(x SExpr) (Val, types.Type) {
 	case *SOld:
 		oc := *c
 		oc.heap = c.oldHeap
+		oc.ghost = c.oldGhost
+		oc.inOld = true
 		return oc.eval(n.X)
 	case *SUn:
 		if n.Op == "&" {
@@ -823,6 +845,16 @@ func (c *specCtx) call(n *SCall) (Val, types.Type) {
 		}
 		kk := c.e.mapKey(c.st, it.KeyT, k)
 		return scalar(tb.Select(it.Dom, kk)), boolType
+	case "held":
+		// held(&x.mtx): the ghost lock state of a mutex
+		v, _ := arg(0)
+		cur := c.ghostArr("held", SArrB)
+		return scalar(tb.Select(cur, c.e.mutexRef(v))), types.Typ[types.Bool]
+	case "sent":
+		// sent(ch): number of sends on the channel value so far (ghost counter)
+		v, _ := arg(0)
+		cur := c.ghostArr("sends", SArrI)
+		return scalar(tb.Select(cur, v.T[0])), untypedInt
 	case "ghost":
 		s, ok := n.Args[0].(*SStr)
 		if !ok {
